@@ -19,6 +19,39 @@ CHECKS = {
         note="Bounded: 3 nodes (quick) / 4 nodes (thorough) x 2 lists exhaustively, 8 nodes x 3 lists randomly. Binding is by "
              "execution of the compiled list.c (gcc -O1 + ASan). API preconditions are action guards."),
 }
+CHECKS["C04"] = dict(
+    engine="tlc+vrt-replay+tracecheck", category=MC, design_ref="DESIGN.md section 4/C04",
+    technique="TLA+ spec (MessageQ.tla, one action per atomic operation) model-checked with TLC under threads and irq "
+              "disciplines; edge cover of every TLC state graph executed as schedules on the real messageq.c under the vrt "
+              "interleaving runtime and validated by TLC against TraceMessageQ.tla; seeded random schedules likewise",
+    text="TLC checks exclusive ownership, exactly-once/in-claim-order delivery, justified claim failure and the counting "
+         "invariant in every interleaving of the bounded configurations (2-4 senders, depth 1-3, full queues with several "
+         "claims in flight). Each transition of those graphs is then executed on the compiled messageq.c, preempted at "
+         "exactly the atomic operations by harness/vrt.c, and TLC confirms that operation, operands, API results and "
+         "shared variables match the specification after every step.",
+    note="Bounded configurations; SC interleavings at atomic-op grain (ordering is C07); CAS assumed not to fail spuriously; "
+         "binding by execution of clang -O1 code instrumented via -fsanitize=thread callbacks.")
+CHECKS["C05"] = dict(
+    engine="tlc+vrt-replay+tracecheck", category=MC, design_ref="DESIGN.md section 4/C05",
+    technique="TLA+ spec (RingBuf.tla, one action per atomic load/store and per plain ring access) model-checked with TLC; "
+              "edge covers executed as schedules on the real ringbuf.c under vrt and validated by TLC against TraceRingBuf.tla; "
+              "seeded random programs/schedules on rings of 2..4096 bytes with guard bytes",
+    text="TLC checks FIFO exactness, the unread-window invariant, no overwrite of unread bytes and justified put/get/empty "
+         "failures in every interleaving (both preemption directions) for ring lengths 2-5 and several start indices; every "
+         "transition is executed on the compiled ringbuf.c with preemption at each atomic operation and each ring byte "
+         "access, and TLC compares operation, results, indices and the unread window after every step.",
+    note="Bounded programs (3-6 puts, 4-8 gets) exhaustively; random beyond. One producer and one consumer context. SC "
+         "interleavings (ordering is C07).")
+CHECKS["C07"] = dict(
+    engine="tlc-tracecheck(C11HB)+vrt", category=MC, design_ref="DESIGN.md section 4/C07",
+    technique="TLA+ happens-before specification (C11HB.tla) evaluated by TLC over every trace recorded from the real code "
+              "under vrt (memory order of each executed atomic operation taken from compiler instrumentation); site-by-site "
+              "weakening as vacuity control; repeated with the __STDC_NO_ATOMICS__ fallback",
+    text="For every execution explored for C04/C05 (and C06 when built) TLC computes vector-clock happens-before from the "
+         "logged memory orders and requires every plain access to payload or single-owner bookkeeping to be ordered with "
+         "all conflicting accesses; a plain access to an atomic object is rejected outright.",
+    note="SC executions only; seq_cst treated as acq_rel. The property's 'long randomised real-thread runs under "
+         "ThreadSanitizer' are a different technique and are not built (DESIGN.md section 6).")
 NOT_YET = "check not built yet (work in progress; planned per DESIGN.md section 4)"
 NA = {}
 
